@@ -251,6 +251,22 @@ def gruChanFallback (cin h cout : Nat) : Nat → List COp
   | 0 => [.conv cin cout, .emit]
   | l + 1 => [.conv cin h, .emit] ++ gruChanFallback h h cout l
 
+/-- the dilated-convolution chain of the learned initialisers (`LagrangeMultipliersInitializer`, `RIMInit`,
+`RecurrentInit`): `cin → chs[0] → chs[1] → …`; with `multiscale_depth = ms > 1` the outputs of the last `ms` blocks are
+concatenated, so all of them but the very last (the running tensor) are remembered -/
+def initChainC : Nat → List Nat → Nat → List COp
+  | _, [], _ => []
+  | cin, [c], _ => [.conv cin c]
+  | cin, c :: c' :: rest, ms =>
+    [.conv cin c] ++ (if rest.length + 1 < ms then [.save] else []) ++ initChainC c (c' :: rest) ms
+
+/-- `LagrangeMultipliersInitializer(2D/3D)(cin, cout, channels = chs, multiscale_depth = ms)`: the 1×1 output block has
+`sum(channels[-ms:])` input channels -/
+def lagrangeC (cin cout : Nat) (chs : List Nat) (ms : Nat) : List COp :=
+  initChainC cin chs ms ++
+    (if 1 < ms then [.cat (downTo (min ms chs.length - 1))] ++ dropsC (min ms chs.length - 1) else []) ++
+    [.conv (chs.drop (chs.length - ms)).sum cout]
+
 /-! ## the permute pairs around the denoiser calls of the unrolled networks -/
 
 /-- `x.permute(*p)` followed by `.permute(*q)` is the identity on every shape of that rank: `p[q[i]] = i` -/
